@@ -437,7 +437,16 @@ pub fn run(args: &Args, r: &mut Report) {
         let apps = case.setup.apps.clone();
         for c in case.script.checks.iter_mut() {
             if !c.results.is_empty() {
-                c.progress = (0..rng.usize(6)).map(|k| k as f32 / 8.0).collect();
+                // monotone but with repeats (a stalled download re-reports its value; 1.0 twice)
+                let mut v = 0.0f32;
+                c.progress = (0..rng.usize(7))
+                    .map(|_| {
+                        if !rng.chance(1, 3) {
+                            v = (v + 0.125 * (1 + rng.below(3)) as f32).min(1.0);
+                        }
+                        v
+                    })
+                    .collect();
             }
         }
         let l = add_reboot_waits(&mut case.script, &mut rng, false, &apps);
